@@ -18,6 +18,13 @@ func Dump(p *Prog, what string) {
 		return
 	}
 	switch {
+	case what == "pinned":
+		os.Stdout.Write(PinnedTable(p))
+	case what == "renames":
+		for _, n := range RenameNotes {
+			fmt.Println(n)
+		}
+		fmt.Println(len(RenameNotes), "renamed function(s) recovered")
 	case what == "routes":
 		rs, err := p.Routes()
 		if err != nil {
